@@ -19,6 +19,18 @@ DEFAULT_SEED = 20261001
 
 # property -> configuration
 PROPS = {
+    "C01": dict(engine="ptable", level="exploration",
+                quick=dict(batches=48, units=250, wall=75),
+                thorough=dict(batches=480, units=500, wall=1500)),
+    "C02": dict(engine="ptable", level="exploration",
+                quick=dict(batches=48, units=250, wall=75),
+                thorough=dict(batches=480, units=500, wall=1500)),
+    "C04": dict(engine="ptable", level="exploration",
+                quick=dict(batches=48, units=250, wall=75),
+                thorough=dict(batches=480, units=500, wall=1500)),
+    "C05": dict(engine="ptable", level="exploration",
+                quick=dict(batches=48, units=250, wall=75),
+                thorough=dict(batches=480, units=500, wall=1500)),
     "C03": dict(engine="faultpoint", level="fault_enumeration",
                 quick=dict(batches=32, units=1, wall=75),
                 thorough=dict(batches=320, units=2, wall=1500)),
@@ -46,6 +58,9 @@ def match_finding(findings, prop, sig):
         if s.get("api") and api not in s["api"]:
             continue
         if s.get("not_tags") and set(s["not_tags"]) & set(tags):
+            continue
+        pre = s.get("tags_any_prefix")
+        if pre and not any(t.startswith(tuple(pre)) for t in tags):
             continue
         return f
     return None
@@ -293,6 +308,9 @@ def run_check(prop, tier, seed, jobs):
         if os.environ.get("VERIF_VERBOSE"):
             for (s, v, r, cnt) in new_viol:
                 print("  [sig] %s x%d: %s" % (s, cnt, v["msg"][:300]))
+        only = os.environ.get("VERIF_ONLY_SIG")
+        if only:
+            new_viol = [x for x in new_viol if only in x[0]]
         for (s, v, r, cnt) in new_viol[:6]:
             path, info = m.shrink_and_confirm(v, r)
             if path is None:
@@ -301,7 +319,8 @@ def run_check(prop, tier, seed, jobs):
                 reported.append((s, path, info, cnt))
         wall = time.time() - t0
         level = m.cfg["level"]
-        probes = getattr(eng, "PROBES", [])
+        probes = getattr(eng, "PROBES_BY_PROP", {}).get(
+            prop, getattr(eng, "PROBES", []))
         probes_at_zero = [p for p in probes if not agg["stats"].get(p)]
         cov = {
             "evaluations": agg["evals"],
